@@ -232,6 +232,19 @@ def _history_inputs():
     ]
 
 
+def _named_callee_inputs(repo: Repo):
+    import re
+
+    names = set()
+    for n_ in ast.walk(repo.module(A).tree):
+        if isinstance(n_, ast.Constant) and isinstance(n_.value, str):
+            m = re.fullmatch(r"([A-Za-z_][A-Za-z0-9_]{1,23})\(?", n_.value)
+            if m:
+                names.add(m.group(1))
+    names = sorted(names)
+    return [(f"decimal.{nm}('x') by REDUCE (protocol 0)", b"cdecimal\n" + nm.encode() + b"\n(S'x'\ntR.") for nm in names]
+
+
 def history_world(repo: Repo, a, b, mode: str) -> List[Tuple[str, str]]:
     from .props.c06 import _fresh_objeval
 
@@ -289,6 +302,10 @@ def explore_history(repo: Repo, tier: str):
     _EREPO = repo
     ins = _history_inputs()
     items = [(a, b, m) for a in ins for b in ins for m in ("after-full-analysis", "after-abandoned-decompilation") if a is not b] + [(a, a, "same-bytes-twice") for a in ins]
+    # the callee names the analyses themselves mention (string constants of their own source), each called as a member of a
+    # benign standard-library module: the inputs on which a name table that grows or shrinks from run to run would show
+    named = _named_callee_inputs(repo)
+    items += [(a, a, "same-bytes-twice") for a in named] + [(a, ins[2], "after-full-analysis") for a in named]
     jobs = min(int(os.environ.get("SA_JOBS", "16")), os.cpu_count() or 1)
     chunks = [items[i::jobs] for i in range(jobs)]
 
